@@ -36,7 +36,7 @@ Q = 60000
 def instances(tier, seed):
     out = []
     cfgs = [('PIT', {'fam': 'T1', 'K': 2, 'C': 2}, ['none', 'discrete_cost', 'train_net_only']), ('PIT', {'fam': 'L1'}, ['none']),
-            ('MPS', {'fam': 'ML', 'bn': False, 'wtype': 'layer', 'w': [2, 8], 'a': [4, 8]}, ['none', 'temperature', 'temperature=1/2', 'temperature=3', 'hard', 'gumbel', 'train_net_only', 'layer_temperatures']),
+            ('MPS', {'fam': 'ML', 'bn': False, 'wtype': 'layer', 'w': [2, 8], 'a': [4, 8]}, ['none', 'temperature', 'temperature=1/2', 'temperature=3', 'hard', 'gumbel', 'train_net_only', 'train_nas_only', 'layer_temperatures']),
             ('SuperNet', {'n': 2, 'kind': 'conv'}, ['none', 'temperature', 'hard', 'train_net_only']),
             ('SuperNet', {'n': 2, 'kind': 'conv', 'gumbel': True}, ['train_forward']),
             ('MPS', {'fam': 'ML', 'bn': False, 'wtype': 'layer', 'w': [2, 8], 'a': [4, 8], 'mps': {'disable_sampling': True}}, ['none'])]
